@@ -215,6 +215,35 @@ def observe_random(par):
     return obs
 
 
+def lemmas():
+    """the window lemmas for every sequence length and all integer parameters: spec/DTBatchLemma.tla checked symbolically by
+    Apalache (unbounded integers); TLC checks that its operators are DTBatch's Opt on the enumerated ranges"""
+    import os
+    import shutil
+    import subprocess
+    from harness.tlc import SPEC, scratch
+    cfg = ('CONSTANTS\n Ls = {1}\n Starts = {1}\n Ends = {1}\n Sizes = {1}\n Orphans = {0}\n Overlaps = {0}\n NavDir = "none"\n'
+           ' PrevBatches = FALSE\nSPECIFICATION Spec\nCHECK_DEADLOCK FALSE\n')
+    r = tlc.run('DTBatchLemmaX', cfg, timeout=900)          # ASSUME SameOpt: a false assumption is a TLC error
+    out = {'SameOpt_TLC': 'holds' if r.ok else 'FAILED'}
+    d = scratch('verif-apa-')
+    try:
+        shutil.copy(os.path.join(SPEC, 'DTBatchLemma.tla'), d)
+        for inv in ('InRange', 'Ends', 'FirstWindow'):
+            try:
+                p = subprocess.run(['apalache-mc', 'check', '--inv=' + inv, '--length=2', '--out-dir=' + os.path.join(d, 'out'),
+                                    'DTBatchLemma.tla'], cwd=d, capture_output=True, text=True, timeout=600)
+                outc = 'NoError' if 'The outcome is: NoError' in p.stdout else 'Error' if 'The outcome is: Error' in p.stdout else 'unknown'
+            except Exception as e:  # noqa
+                outc = 'not run: %s' % type(e).__name__
+            out[inv] = outc
+    finally:
+        shutil.rmtree(d, ignore_errors=True)
+    if out['SameOpt_TLC'] != 'holds' or 'Error' in out.values():
+        raise tlc.TLCFailure('window lemma not established: %r' % out)
+    return out
+
+
 def main(tier):
     V = common.Verdicts(PID, tier)
     rng = random.Random(common.seed())
@@ -300,7 +329,8 @@ def main(tier):
     if V.notes.get('model_violation') and not V.violations and not V.known_hits:
         raise tlc.TLCFailure('the machine violates %s but the real code never does: the '
                              'specification misrepresents the code' % V.notes['model_violation'])
-    cov = {'states': states, 'transitions': trans,
+    lem = lemmas()
+    cov = {'states': states, 'transitions': trans, 'unbounded_window_lemmas_apalache': lem,
            'traces_validated_against_impl': V.counters.get('p1_conform', 0) + validated,
            'behaviours_exported': len(exported), 'chains_exported': len(chains),
            'exhaustive': True, 'bounds': {'window': b, 'navigation': nb},
